@@ -14,7 +14,7 @@ Section CoreProofs.
 
   Lemma do_action_keeps s l a : stopped mx (do_action q blanks AND s l a) = stopped mx s /\ match_count mx (do_action q blanks AND s l a) = match_count mx s
     /\ scan_count mx (do_action q blanks AND s l a) = scan_count mx s /\ adv mx (do_action q blanks AND s l a) = adv mx s /\ pln mx (do_action q blanks AND s l a) = pln mx s.
-  Proof. destruct a as [? ?|? ?|? ?|? ?|? ?|? ?|g]; cbn; try (destruct (rev _)); cbn; auto. destruct g; cbn; try (destruct (dget _ _ _) as [[]|]); try (destruct (is_blank_text _)); try (destruct (none_like _)); cbn; auto. Qed.
+  Proof. destruct a as [? ?|? ?|? ?|? ?|? ?|? ?|g]; cbn; try (destruct (rev _)); cbn; auto. destruct g; cbn; try (destruct (dget _ _ _) as [[]|]); try (destruct (is_blank_text _)); try (destruct (none_like _)); try (destruct (Assign.do_assignment _ _ _ _) as [[[|] ?]|]); cbn; auto. Qed.
 
   Lemma eval_keeps c s l : stopped mx (fst (eval q blanks AND c s l)) = stopped mx s /\ match_count mx (fst (eval q blanks AND c s l)) = match_count mx s
     /\ scan_count mx (fst (eval q blanks AND c s l)) = scan_count mx s /\ adv mx (fst (eval q blanks AND c s l)) = adv mx s /\ pln mx (fst (eval q blanks AND c s l)) = pln mx s.
